@@ -16,20 +16,21 @@ import (
 
 // Job is what verifctl hands to a worker process (file named by VERIF_JOB).
 type Job struct {
-	Mode      string   `json:"mode"` // search | replay | shrink
-	Prop      string   `json:"prop"`
-	Tier      string   `json:"tier"`
-	SeedBase  uint64   `json:"seed_base"`
-	From      int      `json:"from"`   // first run index (inclusive)
-	Stride    int      `json:"stride"` // this worker handles From, From+Stride, ...
-	MaxRuns   int      `json:"max_runs"`
-	WallS     float64  `json:"wall_s"`
-	SelfCheck int      `json:"selfcheck_every"` // every n-th run is executed twice
-	Known     []string `json:"known"`           // signatures of known findings
-	Spec      *RunSpec `json:"spec,omitempty"`  // replay / shrink
-	WantSig   string   `json:"want_sig,omitempty"`
-	ShrinkS   float64  `json:"shrink_s,omitempty"`
-	Out       string   `json:"out"`
+	Mode       string   `json:"mode"` // search | replay | shrink
+	Prop       string   `json:"prop"`
+	Tier       string   `json:"tier"`
+	SeedBase   uint64   `json:"seed_base"`
+	From       int      `json:"from"`   // first run index (inclusive)
+	Stride     int      `json:"stride"` // this worker handles From, From+Stride, ...
+	MaxRuns    int      `json:"max_runs"`
+	WallS      float64  `json:"wall_s"`
+	SelfCheck  int      `json:"selfcheck_every"` // every n-th run is executed twice
+	Known      []string `json:"known"`           // signatures of known findings
+	Spec       *RunSpec `json:"spec,omitempty"`  // replay / shrink
+	WantSig    string   `json:"want_sig,omitempty"`
+	ShrinkS    float64  `json:"shrink_s,omitempty"`
+	Out        string   `json:"out"`
+	PerVariant int      `json:"per_variant,omitempty"` // seeds per enumerated variant
 }
 
 // WorkerSummary is the last line a search worker writes.
@@ -141,7 +142,7 @@ func workerSearch(t *testing.T, job *Job, enc *json.Encoder) {
 			break
 		}
 		idx := job.From + i*job.Stride
-		if len(variants) > 0 && job.MaxRuns == 0 && idx >= len(variants)*seedsPerVariant(job.Tier) {
+		if len(variants) > 0 && job.MaxRuns == 0 && idx >= len(variants)*seedsPerVariant(job) {
 			break
 		}
 		if time.Since(start).Seconds() > job.WallS {
@@ -231,8 +232,11 @@ func workerSearch(t *testing.T, job *Job, enc *json.Encoder) {
 	_ = enc.Encode(sum)
 }
 
-func seedsPerVariant(tier string) int {
-	if tier == "thorough" {
+func seedsPerVariant(job *Job) int {
+	if job.PerVariant > 0 {
+		return job.PerVariant
+	}
+	if job.Tier == "thorough" {
 		return 1500
 	}
 	return 40
